@@ -40,7 +40,8 @@ LEVEL_TEXT = {
             "coherent world every immediately bound property equals its expression recomputed from scratch. (3) Growth (PropGrow.v): coherence is established "
             "and kept by every history that creates properties, attaches plain observers, binds fresh properties (immediate mode, expressions over existing "
             "properties incl. bound ones, repeated inputs) and assigns to inputs; also by histories that bind existing properties, unbound or already bound (which may have readers; rebinding is reset() then assignment), call reset(), destroy properties that no live binding reads move-construct any property and move-assign over destinations no live binding reads (PropMove.v: every tree abstracts to the old one with the source renamed, the invariant is stable under renaming); also in MIXED worlds (PropMixed.v: evaluator objects, fresh properties bound through an evaluator, evaluateAll - an evaluator-driven property is an input of the immediate bindings reading it). "
-            "PARTIAL: observers that write are covered by the extracted checker check_c02 on every reached world and by correspondence; known finding "
+            "(4) Observers that WRITE (PropAbsAct.v, PropSimAct.v, PropGrowAct.v): subscribers of valueChanged that assign the announced value to another property from inside the notification - on the abstract layer a complete nested assignment, on the executable model setHelper refines it (same coherence notion), so after any growing-network history followed by any history that attaches such observers (and plain ones) and assigns inputs every immediately bound property equals its expression; expressions written with the library's operators: the regenerated table of all operator overloads passes the wiring check and the correspondence builds nodes with the real overloads. "
+            "PARTIAL: observers of valueAboutToChange that write, observers that reset bindings, and bindings created after writing observers exist are covered by the extracted checker check_c02 on every reached world and by correspondence; known finding "
             "KF-C02-aborted-walk (an exception cutting a notification walk short) is re-confirmed on every run.", '6/C02'),
     'C03': ("Machine-checked on the executable model of Property::setHelper: an equal value changes nothing and logs nothing; any other value notifies every "
             "about-to-change observer with (old, new) while get() = old, stores, then notifies every changed observer with the new value while get() = new, each "
@@ -60,8 +61,8 @@ LEVEL_TEXT = {
             "assignment and evaluateAll the abstract pass; these state conditions hold in every world reached by creating properties, plain observers, fresh "
             "evaluator-driven bindings, assignments and evaluateAll, and in such a network the registration order is a duplicate-free dependency order; hence "
             "after ONE evaluateAll every registered bound property equals its expression recomputed from scratch (no further premise); the same for histories "
-            "that also reset() bound properties, destroy properties nobody reads (PropGrowLazyMore.v) move-construct properties and move-assign them over destinations no live binding reads (PropMoveLazy.v: the destination's old binding dies and leaves its registry), and a reset binding is dead and out of the registry evaluateAll iterates; for EVERY history (any outcome, acting observers): registries hold live bindings only and a dead binding stays dead, so a reset, replaced or destroyed binding is never evaluated again (PropReg.v); notifications only for changed values (PropNotify.v): in any world a Binding::evaluate whose result equals the current value calls no observer, and an evaluateAll of such a network that leaves every registered property's value as it was has called no observer and never changes an unregistered property; an evaluateAll directly after another returns the very same world (for the networks above without any premise, PropTgt.v). In MIXED worlds (PropMixedLazy.v: immediate and evaluator-driven bindings together, no acting observers) every cache of every evaluator-driven tree is right for the current values in every world a growing network reaches, through every assignment with its cascade of immediate re-evaluations, so every evaluation of such a binding assigns exactly its expression over the current inputs; and ONE evaluateAll of an explicit evaluator leaves every property bound through it equal to its expression over the values after the pass (PropMixedPass.v: creation order is a rank under which setHelper(q) touches nothing below q but q). PARTIAL: acting observers, "
-            "and direct rebinding / moves / destruction in mixed worlds, are covered by the extracted checker "
+            "that also reset() bound properties, destroy properties nobody reads (PropGrowLazyMore.v) move-construct properties and move-assign them over destinations no live binding reads (PropMoveLazy.v: the destination's old binding dies and leaves its registry), and a reset binding is dead and out of the registry evaluateAll iterates; for EVERY history (any outcome, acting observers): registries hold live bindings only and a dead binding stays dead, so a reset, replaced or destroyed binding is never evaluated again (PropReg.v); notifications only for changed values (PropNotify.v): in any world a Binding::evaluate whose result equals the current value calls no observer, and an evaluateAll of such a network that leaves every registered property's value as it was has called no observer and never changes an unregistered property; an evaluateAll directly after another returns the very same world (for the networks above without any premise, PropTgt.v). In MIXED worlds (PropMixedLazy.v: immediate and evaluator-driven bindings together, no acting observers) every cache of every evaluator-driven tree is right for the current values in every world a growing network reaches, through every assignment with its cascade of immediate re-evaluations, so every evaluation of such a binding assigns exactly its expression over the current inputs; and ONE evaluateAll of an explicit evaluator leaves every property bound through it equal to its expression over the values after the pass (PropMixedPass.v: creation order is a rank under which setHelper(q) touches nothing below q but q). The growing mixed networks include reset(), p = q.get(), disconnecting observers, evaluator objects going away, destruction of unread properties and both moves (the destination takes the rank of the source). PARTIAL: acting observers, "
+            "and direct rebinding of existing properties / user-held bindings in mixed worlds, are covered by the extracted checker "
             "check_c06_after_evalall on every evaluateAll of every generated history and by correspondence.", '6/C06'),
     'C07': ("Machine-checked on the executable model: every direct write to a bound property raises ReadOnlyProperty and leaves the world unchanged; reset keeps "
             "value and observers, removes the updater and re-enables the normal write protocol; destroying/replacing a binding touches no property and no "
